@@ -6,7 +6,7 @@ with tempfile.TemporaryDirectory() as d:
     x = os.path.join(d, "r.xml")
     env = dict(os.environ); env.pop("FORD_VERIF", None)
     subprocess.run(["/venv/bin/python", "-m", "pytest", "-ra", "-q", "-p", "no:cacheprovider", "--timeout=900",
-                    "--continue-on-collection-errors", f"--junitxml={x}"], cwd="/repo", env=env,
+                    "--continue-on-collection-errors", f"--junitxml={x}"], cwd=os.environ.get("BASELINE_DIR", "/repo"), env=env,
                    stdout=subprocess.DEVNULL, stderr=subprocess.DEVNULL)
     passed = set()
     for tc in ET.parse(x).getroot().iter("testcase"):
